@@ -267,21 +267,37 @@ ImplCondLeaf(st, c) == Leaf(ImplOfCond(c).con, ImplResolveOrigin(st, st.cur.x), 
 \* merged; the is_truthy constraints on ok never change a bool value, so fake nodes of ok are transparent)
 ImplOkAlts(st) == Uniq([i \in 1..Len(st.cur.ok) |-> IF st.cur.ok[i] = Uninit THEN NullAlt ELSE st.okv[st.cur.ok[i]]])
 
-\* extract_constraints (stacked_scopes.py:1604) of the value of ok, then .apply():
-\*  one value: its constraint;  a union: OrConstraint.make(...) -- OrConstraint.apply (:601) yields a one_of constraint
-\*  for a VarnameWithOrigin (name AND origin) that every alternative constrains; NULL_CONSTRAINT constrains nothing
-ImplSavedPos(alts, newid) ==
-    IF Len(alts) = 1 THEN (IF alts[1].null THEN << >> ELSE <<alts[1]>>)
-    ELSE IF \E i \in 1..Len(alts) : alts[i].null THEN << >>
-    ELSE IF \A i \in 1..Len(alts) : alts[i].org = alts[1].org
-         THEN <<Leaf(ConOneOf("x", [i \in 1..Len(alts) |-> alts[i].con]), alts[1].org, newid)>>   \* a new Constraint object per apply()
-    ELSE << >>
-\*  inverted: Constraint.invert / OrConstraint.invert (:635) = AndConstraint of the inverted alternatives, whose apply
-\*  yields every one of them (NULL_CONSTRAINT inverts to itself and yields nothing)
-ImplSavedNeg(alts, fixed, newid) ==
-    IF Len(alts) > 1 /\ "alternatives_not_conjoined" \in fixed
-    THEN ImplSavedPos([i \in 1..Len(alts) |-> IF alts[i].null THEN alts[i] ELSE InvLeaf(alts[i])], newid)   \* proposed/C02-fix-4.diff
-    ELSE LET real == SelectSeq(alts, LAMBDA a : ~a.null) IN [i \in 1..Len(real) |-> InvLeaf(real[i])]
+\* The test `ok` / `not ok` (name_check_visitor.py:4197 _visit_possible_constraint, :4582 constraint_from_condition, :3697
+\* visit_UnaryOp; stacked_scopes.py:1604 extract_constraints).  k = number of inversions between the condition `ok` and the
+\* branch: 0 body of `if ok`, 1 its else branch and the body of `if not ok`, 2 the else branch of `if not ok`.
+\*  * ok holds ONE value: the condition is EquivalentConstraint(is_truthy(ok), c): the branch gets c inverted k times
+\*    (Constraint.invert caches the inverse on the object: the same objects every time the test is evaluated).
+\*  * ok holds a UNION of values: existing = OrConstraint(alternatives); _visit_possible_constraint strips the extension
+\*    of the union only, its members keep theirs, so extract_constraints sees the alternatives twice:
+\*    AndConstraint(Equivalent(is_truthy(ok), Or), Or).  Not inverted (k even): Or.apply (:601) twice -- each yields a NEW
+\*    one_of constraint for the VarnameWithOrigin (name and origin) that every alternative constrains, none if an
+\*    alternative is NULL_CONSTRAINT or the origins differ.  Inverted (k odd): OrConstraint(Equivalent(.., And(inverted
+\*    alternatives)), And(inverted alternatives)), whose apply yields, per origin, one NEW one_of over the two (identical)
+\*    conjunctions of the inverted alternatives of that origin -- i.e. ALL of them are asserted (NULL_CONSTRAINT inverts
+\*    to itself and contributes nothing).
+RECURSIVE InvN(_, _)
+InvN(l, k) == IF k = 0 THEN l ELSE InvN(InvLeaf(l), k - 1)
+OneOfLeaf(cons, org, id) == Leaf(ConOneOf("x", cons), org, id)
+ImplSavedCons(alts, k, fixed, nc) ==
+    LET real == SelectSeq(alts, LAMBDA a : ~a.null)
+        ls == [i \in 1..Len(real) |-> InvN(real[i], k)]
+        uniform == Len(real) = Len(alts) /\ \A i \in 1..Len(alts) : alts[i].org = alts[1].org
+        orgs == Uniq([i \in 1..Len(ls) |-> ls[i].org])
+        OfOrg(o) == SelectSeq(ls, LAMBDA l : l.org = o)
+        Conj(group) == IF Len(group) = 1 THEN <<group[1].con>>
+                       ELSE <<ConAllOf("x", [i \in 1..Len(group) |-> group[i].con]), ConAllOf("x", [i \in 1..Len(group) |-> group[i].con])>>
+    IN IF Len(alts) = 1 THEN ls
+       ELSE IF k % 2 = 0
+       THEN (IF uniform THEN <<OneOfLeaf([i \in 1..Len(ls) |-> ls[i].con], ls[1].org, nc + 1),
+                               OneOfLeaf([i \in 1..Len(ls) |-> ls[i].con], ls[1].org, nc + 2)>> ELSE << >>)
+       ELSE IF "alternatives_not_conjoined" \in fixed                                       \* proposed/C02-fix-4.diff
+       THEN (IF uniform THEN <<OneOfLeaf([i \in 1..Len(ls) |-> ls[i].con], ls[1].org, nc + 1)>> ELSE << >>)
+       ELSE [j \in 1..Len(orgs) |-> OneOfLeaf(Conj(OfOrg(orgs[j])), orgs[j], nc + j)]
 
 \* visit_BoolOp (name_check_visitor.py:3424) for `c and U(i, x)` / `c or U(i, x)`: the right operand is visited in a
 \* nested subscope under c (and) / c inverted (or); both subscopes are then combined
@@ -298,10 +314,10 @@ ImplEvalCond(st, tok, i) ==
       [] tok.t \in {"ifok", "whok"} ->
            \* _visit_possible_constraint: EquivalentConstraint(is_truthy(ok), extract_constraints(value of ok)); `not ok` inverts it
            LET alts == ImplOkAlts(st)
-               s2 == [st EXCEPT !.nc = @ + 2]
-               p == ImplSavedPos(alts, st.nc + 1)
-               n == ImplSavedNeg(alts, st.fx, st.nc + 2)
-           IN IF tok.c = NoCond THEN [st |-> s2, pos |-> p, neg |-> n] ELSE [st |-> s2, pos |-> n, neg |-> p]
+               k == IF tok.c = NoCond THEN 0 ELSE 1
+               w == Len(alts) + 2                                    \* identities for the new one_of objects of either branch
+               s2 == [st EXCEPT !.nc = @ + 2 * w]
+           IN [st |-> s2, pos |-> ImplSavedCons(alts, k, st.fx, st.nc), neg |-> ImplSavedCons(alts, k + 1, st.fx, st.nc + w)]
       [] tok.t = "ifwal" ->
            \* composite_from_walrus: ok is bound to the value of c; the test is AndConstraint(c, is_truthy(ok)), whose
            \* inverse is an OrConstraint over two different variables: nothing for x in the else branch
